@@ -963,7 +963,14 @@ def _prune(stmts, top=True):
             if s.orelse and all(isinstance(b, ast.Pass) for b in s.body):
                 # `if c: pass else: X` is `if not c: X`
                 t0 = s.test
-                s.test = t0.operand if isinstance(t0, ast.UnaryOp) and isinstance(t0.op, ast.Not) else ast.UnaryOp(op=ast.Not(), operand=t0)
+                inv = {ast.Eq: ast.NotEq, ast.NotEq: ast.Eq, ast.Lt: ast.GtE, ast.GtE: ast.Lt, ast.Gt: ast.LtE, ast.LtE: ast.Gt, ast.Is: ast.IsNot,
+                       ast.IsNot: ast.Is, ast.In: ast.NotIn, ast.NotIn: ast.In}
+                if isinstance(t0, ast.UnaryOp) and isinstance(t0.op, ast.Not):
+                    s.test = t0.operand
+                elif isinstance(t0, ast.Compare) and len(t0.ops) == 1 and type(t0.ops[0]) in inv:
+                    s.test = ast.Compare(left=t0.left, ops=[inv[type(t0.ops[0])]()], comparators=t0.comparators)
+                else:
+                    s.test = ast.UnaryOp(op=ast.Not(), operand=t0)
                 s.body, s.orelse = s.orelse, []
         out.append(s)
         if isinstance(s, (ast.Raise, ast.Return)):
